@@ -731,6 +731,12 @@ class IndexOps:
             st, c = call(lambda: fresh in obj)
             if st == 'raise' or c is not False:
                 fail(o, f'fresh label membership -> {c!r}')
+            if m.unit is not None:
+                # values that are not dates at all are not members either (and asking must not raise)
+                for other in ('never-used-label', ('a', 1)):
+                    st, c = call(lambda: other in obj)
+                    if st == 'raise' or c is not False:
+                        fail(o, f'membership of {other!r} in a date index -> {c!r}')
             # membership is true *exactly* for held labels: labels of the generator's pools that are not held
             # (e.g. appended to a container this one was derived from, or to one derived from it) are not members
             pool = (STRS + INTS + [100 + i for i in range(4)]) if m.unit is None else [np.datetime64(x, m.unit) for x in DATES[m.unit]]
